@@ -132,6 +132,9 @@ def run(ck, extra_overlay=None):
     cfg = "ChannelCloseTrace_C04.cfg"
     obs = ("Justice",)
     ok = close.judge(ck, prop, recs, cfg, obs, "C04", keyfn=keyfn, quirk=quirk)
+    ndiv = res["out"].count("VERIF-DIVERGED ")
+    if ndiv and ok and not ck.violations and not ck.known_hits:
+        raise Inconclusive("%d behaviours could not be replayed to the end, yet every recorded step conforms" % ndiv)
     jw = [r for r in recs if r["a"] == "Justice" and r["y"] == 2]
     js = [r for r in recs if r["a"] == "Justice" and r["y"] < 2]
     close.evidence(ck, recs, g, obs,
